@@ -15,8 +15,14 @@ Inductive mstep :=
 | MExpire (t : nat)       (* caller t's context has a deadline and the script lets it pass;
                              for the machine this is Cancel t: the caller's own context is dead *)
 | MRelease (r : resp)     (* let the gated download (if any) return r *)
-| MRotate (ks : list jwk). (* ground truth only: from now on the endpoint publishes ks (what a good
+| MRotate (ks : list jwk)  (* ground truth only: from now on the endpoint publishes ks (what a good
                               answer would carry); nothing happens at the key set *)
+| MNeighbour (ks : list jwk).
+                           (* ANOTHER key set instance - obtained the same way (rp.NewRemoteKeySet, or the
+                              IDTokenVerifier of another relying party), for the same jwks_uri STRING but
+                              with its own http client that reaches a different JWKS document (split
+                              horizon, per-tenant gateway) - downloads ks and verifies a token of ks.
+                              Nothing happens at THIS key set: it verifies exactly what ITS endpoint serves. *)
 
 Inductive input :=
 | Script (skip : bool) (steps : list mstep)
@@ -48,7 +54,7 @@ Definition events_of (w : world) (m : mstep) : list event :=
       | Some g => FetchReturns g r :: Commit g :: map Run (seq 0 (List.length (w_callers w)))
       | None => []
       end
-  | MRotate _ => []
+  | MRotate _ | MNeighbour _ => []
   end.
 
 Definition delivered_of (w : world) (m : mstep) : bool :=
@@ -207,7 +213,9 @@ Definition check_step (skip : bool) (g : truth) (p s : snap) (m : mstep) : bool 
                              call: the answer of a download that ended before the call began; only
                              verifications WAITING for a failed download fail with it *)
            end
-    | MCancel _ | MExpire _ | MRotate _ => true
+    | MCancel _ | MExpire _ | MRotate _ | MNeighbour _ => true
+        (* the common clauses do the work for MNeighbour: the cached keys are still the last good
+           body of THIS endpoint, no request, nobody finishes *)
     | MRelease r =>
         if s_delivered s then
           forallb (fun t => negb (is_pending (stat_at p t)) || negb (is_pending (stat_at s t))) tids
